@@ -51,7 +51,7 @@ func buildLazySpec() (*interp.LazySpec, error) {
 				}
 				for _, name := range fld.Names {
 					key := "go/ast." + ts.Name.Name + "." + name.Name
-					if strings.Contains(text, "or nil") || strings.Contains(text, "nil means") || strings.Contains(text, "may be nil") {
+					if strings.Contains(text, "or nil") || strings.Contains(text, "nil means") || strings.Contains(text, "may be nil") || strings.Contains(text, "nil for ") {
 						spec.Nullable[key] = true
 					}
 					if sel, ok := fld.Type.(*ast.SelectorExpr); ok && sel.Sel.Name == "Pos" {
